@@ -5,7 +5,7 @@ from typing import Any
 
 from ..absint import AObj
 from ..card import D, domain_wf, kind
-from ..codec import NAME_CLASSES, stress_trees, ctc_model, run_writer
+from ..codec import as_text, operator_trees, NAME_CLASSES, stress_trees, ctc_model, run_writer
 from ..core import AnalysisError, Ctx, loc
 from ..exports import ClaferDoc, ExportError, configurations, model_names, model_valid
 from ..logic import BINARY_LOGICAL
@@ -23,7 +23,7 @@ def validate(ctx: Ctx, pm: ProgramModel, rule: str, key: str, model: AObj, what:
     if w["raise"]:
         rep(rule, f"{key}:writer-raises", w["raise"][1] or where, f"{what}: ClaferWriter raises {w['raise'][0]}")
         return None
-    text = w["written"]
+    text = as_text(w["written"])
     try:
         doc = ClaferDoc(text)
     except ExportError as exc:
@@ -118,9 +118,7 @@ def check(pm: ProgramModel, ctx: Ctx) -> None:
     # operators ---------------------------------------------------------------------------------------
     n, o = mb.node, mb.op
     for op in BINARY_LOGICAL:
-        trees = [("c1", n(o(op), n("A"), n("B"))),
-                 ("c2", n(o(op), n(o("NOT"), n("A")), n(o("AND"), n("B"), n("C")))),
-                 ("c3", n(o("OR"), n(o(op), n("A"), n("B")), n("C")))]
+        trees = operator_trees(mb, op)        # root, over a negation and a conjunction, nested, left/right chains of itself
         first_bad = None
         for nm, tree in trees:
             sub = Ctx(ctx.prop, ctx.tier)
